@@ -17,7 +17,7 @@ RULE = ("base well-formed sequences x {identity, copy, via-relative, shuffled in
         "perturbed attribute (or not at all for the equal families).")
 PLAN = {"quick": {"cases": 2500, "jobs": 4, "timeout": 600},
         "thorough": {"cases": 2000000, "jobs": 16, "timeout": 3000, "budget_s": 360}}
-FLOORS = {"quick": {"equals.verdict.armed": 60000, "c17.expected_unequal_calls": 10000, "c17.expected_equal_calls": 10000},
+FLOORS = {"quick": {"equals.verdict.armed": 60000, "c17.expected_unequal_calls": 10000, "c17.expected_equal_calls": 10000, "c17.note_less_pair": 200},
           "thorough": {"equals.verdict.armed": 1500000}}
 PERT = ["none", "pitch", "onset_keep_order", "onset_change_order", "duration", "velocity", "channel", "ts_value", "ts_tick",
         "ks_value", "ks_tick", "add_note", "channel_move", "channel_swap", "ts_proportional", "ts_denominator"]
@@ -137,6 +137,11 @@ def make_case(rng, i, tier):
         other["notes"] = [list(x) for x in notes]
         applied = "none"
     route = rng.choice(["build", "copy", "via_rel", "shuffled"])
+    if applied in ("none", "ts_value", "ts_tick", "ks_value", "ks_tick", "ts_proportional", "ts_denominator") and (i // len(PERT)) % 3 == 1:
+        # note-less operands (rest bars, padded bars): signatures are all there is to compare
+        base["notes"], other["notes"] = [], []
+        base.setdefault("pad", 96)
+        other.setdefault("pad", base["pad"])
     return {"a": base, "b": other, "pert": applied, "route": route, "shuffle_seed": rng.randrange(10 ** 6)}
 
 
@@ -175,6 +180,8 @@ def run(case, ctx):
     fails = []
     pert = case["pert"]
     oa, ob = obs(a), obs(b)
+    if not oa["notes"] and not ob["notes"]:
+        LOG.n("c17.note_less_pair")
     relax = {"velocity": 3, "channel": 0, "ts_value": 1, "ts_tick": 1, "ks_value": 2, "ks_tick": 2, "ts_proportional": 1,
              "ts_denominator": 1}
     for fl in FLAGS:
@@ -194,6 +201,19 @@ def run(case, ctx):
             LOG.n("c17.expected_unequal_calls", 2)
         if exp_equal is not None and (bool(r1) != exp_equal):
             fails.append(fail("metamorphic_expectation", {"pert": pert, "flags": fl, "lib": r1, "expected": exp_equal}))
+    # the other public entry points must give the verdict of equals with default flags: ==, != on the sequence and on
+    # either representation, and keyword arguments must mean what the positional ones mean
+    base = a.equals(b)
+    entry = {"seq ==": a == b, "seq !=": not (a != b), "abs ==": a.abs == b.abs, "rel ==": a.rel == b.rel,
+             "abs.equals": a.abs.equals(b.abs), "reversed ==": b == a}
+    LOG.n("c17.entry_points_compared", len(entry))
+    for name, r in entry.items():
+        if bool(r) != bool(base):
+            fails.append(fail("entry_points_disagree", {"entry": name, "verdict": bool(r), "equals": bool(base), "pert": pert}))
+    for fl in (FLAGS[case["shuffle_seed"] % 16], FLAGS[(case["shuffle_seed"] // 16) % 16]):
+        kw = a.equals(other=b, ignore_velocity=fl[3], ignore_key_signature=fl[2], ignore_time_signature=fl[1], ignore_channel=fl[0])
+        if bool(kw) != bool(a.equals(b, *fl)):
+            fails.append(fail("keyword_arguments_disagree", {"flags": fl, "keyword": kw}))
     if not a.equals(a) or not (a == a):
         fails.append(fail("reflexive", None))
     c = a.copy()
@@ -205,5 +225,5 @@ def run(case, ctx):
     differs = oa["notes"] != ob["notes"] or [e for e in oa["non"] if e[1] in ("time_signature", "key_signature")] != \
         [e for e in ob["non"] if e[1] in ("time_signature", "key_signature")]
     confirmed = (pert == "none" and not differs) or (pert != "none" and differs)
-    return {"nontrivial": confirmed, "fails": fails, "shape": (pert, case["route"], len(set(n[0] for n in case["a"]["notes"]))),
+    return {"nontrivial": confirmed, "fails": fails, "shape": (pert, case["route"], len(set(n[0] for n in case["a"]["notes"])), bool(case["a"]["notes"])),
             "observed": {"pert": pert, "route": case["route"], "differs": differs}}
